@@ -49,4 +49,36 @@ def processBuffer (t : Bytes → Bool) (x : Idx) (frag : Bytes) : Idx × List By
 /-- the index-level view of a state of the byte-fed model -/
 def ofSt (s : St) : Idx := { buf := (s.restRev ++ s.curRev).reverse, offsetSearch := s.curRev.length }
 
+
+/-- `bytes.LastIndexByte(b, '\n')` -/
+def lastIndexNL (b : Bytes) : Option Nat := (indexByte b.reverse 10).map (fun k => b.length - 1 - k)
+
+/-- `Flush`: the buffered lines up to the last newline are one record; the unfinished line is relocated -/
+def flush (t : Bytes → Bool) (x : Idx) : Idx × List Bytes :=
+  match lastIndexNL x.buf with
+  | none => (x, [])                                             -- n == -1: return
+  | some n =>
+    let record := x.buf.take n                                  -- buffer[:n]
+    ({ buf := x.buf.drop (n + 1), offsetSearch := 0 },          -- copy(mlr.buffer, buffer[n+1:]); offsetSearch = 0
+     if record.length > 0 ∧ t record then [record] else [])
+
+/-- `FlushAll` -/
+def flushAll (t : Bytes → Bool) (x : Idx) : Idx × List Bytes :=
+  let record := x.buf
+  ({ buf := [], offsetSearch := 0 },
+   if record.length > 0 then
+     let record := if record.getLast? = some 10 then record.take (record.length - 1) else record
+     if t record then [record] else []
+   else [])
+
+/-- `checkOverflow` -/
+def checkOverflow (c : Cfg) (t : Bytes → Bool) (x : Idx) : Idx × List Bytes :=
+  if c.cap - x.buf.length ≥ c.soft then (x, [])
+  else
+    let buffer := x.buf
+    if x.offsetSearch > 0 ∧ t (buffer.drop x.offsetSearch) then
+      ({ buf := [], offsetSearch := 0 },
+       (if t (buffer.take (x.offsetSearch - 1)) then [buffer.take (x.offsetSearch - 1)] else []) ++ [buffer.drop x.offsetSearch])
+    else ({ buf := [], offsetSearch := 0 }, if t buffer then [buffer] else [])
+
 end FrameIdx
